@@ -191,6 +191,16 @@ class State:
 
         self.env = {k: walk(v) for k, v in self.env.items()}
 
+    def apply(self, v):
+        """bring a value captured earlier up to date with this state's substitutions and zero-ness facts"""
+        m = self.subst
+        v = map_value(v, lambda p: p.subst(m))
+        tmp = State()
+        tmp.env = {"v": v}
+        tmp.nz, tmp.nzp, tmp.lt, tmp.subst = self.nz, self.nzp, self.lt, self.subst
+        tmp.normalize()
+        return tmp.env["v"]
+
     def known_zero(self, p):
         """True / False / None for 'polynomial p == 0' (magnitudes are >= 0)"""
         if p.is_const():
@@ -568,7 +578,10 @@ class Interp:
         if k == "bool":
             return int(v[1])
         if k == "boolsym":
-            raise Unsupported("branch on undecided comparison %s" % v[1])
+            # a branch on an undecided comparison of opaque quantities (e.g. which operand is longer): explore both ways
+            if v[1] not in st.bools:
+                raise NeedFork(("bool", v[1]))
+            return int(st.bools[v[1]])
         return self.discr_of(st, v)
 
     # --- forking
